@@ -355,8 +355,10 @@ def stopsTrack (one downsampling : α) (track resampled : List (Fix α)) : List 
 
 /-- `track[i]` -/
 def getFix (zero : α) (l : List (Fix α)) : Nat → Fix α :=
-  let a := l.toArray
-  fun i => a.getD i ⟨zero, zero, zero, zero⟩
+  fun i => l.getD i ⟨zero, zero, zero, zero⟩
+
+/-- what `findStopsGlobal` reads of an observation: planimetric position and time -/
+def Fix.flat (p : Fix α) : α × α × α := (p.x, p.y, p.t)
 
 /-- `findStopsGlobal(track, diameter, duration, downsampling)`: the stops reported as `(id_ini, id_end, nb_points)` =
 `(a * downsampling, (b − 1) * downsampling, b − a)` for the segments `[a, b)` of the maximising segmentation that pass the
